@@ -192,10 +192,21 @@ def a12ToPos (A1 A2 : V3 K) (a : K × K) : V3 K := V3.smul a.1 A1 + V3.smul a.2 
 /-- the linear solve of `pos_to_a12`: `[A1 A2 A1×A2]ᵀ-columns · a123 = pos`. -/
 def posToA123 (A1 A2 : V3 K) (p : V3 K) : V3 K := M3.vecMul p (M3.inv ⟨A1, A2, V3.cross A1 A2⟩)
 
+def maxK (a b : K) : K := if a < b then b else a
+
+/-- the out-of-plane test of `pos_to_a12`, free of the unit of length.  The code solves in the basis
+    `[A1, A2, c / |c|^(1/2)]`, `c = A1 × A2`, and asserts `|a3'| ≤ 1e-6 · max(1, |a1|, |a2|)` per position.  With `a3` the
+    coefficient of `c` itself (`posToA123`), `a3' = a3 · |c|^(1/2)`, so the test reads `a3² |c| ≤ tol² M²`; both sides are
+    non-negative, hence (squared once more, no roots) `a3⁴ (c·c) ≤ tol⁴ M⁴`. -/
+def inPlaneOk (A1 A2 : V3 K) (a : V3 K) : Bool :=
+  let c := V3.cross A1 A2
+  let M := maxK 1 (maxK (absK a.x) (absK a.y))
+  decide (((a.z * a.z) * (a.z * a.z)) * V3.dot c c ≤ ((tolPlane * tolPlane) * (tolPlane * tolPlane)) * ((M * M) * (M * M)))
+
 /-- `pos_to_a12` with its out-of-plane assertion. -/
 def posToA12? (A1 A2 : V3 K) (p : V3 K) : Option (K × K) :=
   let a := posToA123 A1 A2 p
-  if absK a.z ≤ tolPlane then some (a.x, a.y) else none
+  if inPlaneOk A1 A2 a then some (a.x, a.y) else none
 
 def posToA12 (A1 A2 : V3 K) (p : V3 K) : K × K :=
   let a := posToA123 A1 A2 p
@@ -208,8 +219,10 @@ def planeNormal (A1 A2 : V3 K) (nn : K) : V3 K := (V3.cross A1 A2).map (· / nn)
 def xyTransform (X Nh : V3 K) (nx ny nz : K) : M3 K :=
   ⟨X.map (· / nx), (V3.cross Nh X).map (· / ny), Nh.map (· / nz)⟩
 
-/-- `isclose(dot(xvect, planenormal), 0)` guard. -/
-def xvectOk (X Nh : V3 K) : Bool := isclose (V3.dot X Nh) 0
+/-- the guard `isclose(dot(xvect, planenormal) / norm(xvect), 0)`: `|X·N̂| ≤ 1e-8 |X|`, written without the root as
+    `(X·N̂)² ≤ (1e-8)² (X·X)`; a zero `xvect` (0/0 in the code) is refused. -/
+def xvectOk (X Nh : V3 K) : Bool :=
+  decide (V3.dot X Nh * V3.dot X Nh ≤ (tolA * tolA) * V3.dot X X) && decide (0 < V3.dot X X)
 
 def posToXY (T : M3 K) (p : V3 K) : K × K := (V3.dot T.r0 p, V3.dot T.r1 p)
 
